@@ -5,6 +5,7 @@
 import Driver.Codec
 import Proofs.RT.Top
 import Proofs.LRT.Bool
+import Proofs.C03.FoldValue
 set_option autoImplicit false
 
 namespace Narsese.Driver
@@ -284,6 +285,13 @@ def exec (op fmt payload : String) : Except String String := do
     let L ← lfmtOf fmt
     let v ← runRd rdLNarsese payload
     pure s!"h {bit (wfLNB L v)} {bit (wsFreeN L v)} ok {showLNarsese v}"
+  | "c03hyp" =>
+    -- model-only: do the hypotheses of `pipelines_agree_on_formatted` (`Props/C03b.lean`) hold for this value?
+    let F ← efmtOf fmt
+    let L ← lfmtOf fmt
+    let v ← runRd rdNarsese payload
+    let x := toLexN F v
+    pure s!"h {bit (wfN F v && topN F v)} {bit (wfLNB L x && wsFreeN L x)} ok {showNarsese .canon v}"
   | "numok" =>
     -- is this (bits, text) pair what the model requires of a printed number?
     let x ← runRd rdNum payload
